@@ -24,7 +24,7 @@ type Mutated struct {
 var DefectClasses = []string{
 	"substitute", "transpose", "count-delete", "count-insert", "count-any", "foreign-word", "case",
 	"affix", "junk-token", "separator", "checksum-only", "last-word", "none", "lead-zero-wrongsum",
-	"empty-token", "drop-word-keep-separator", "strip-marks", "add-mark", "invisible-affix", "count-wrap",
+	"empty-token", "drop-word-keep-separator", "strip-marks", "add-mark", "invisible-affix", "count-wrap", "hash-lookalike",
 }
 
 func join(l ref.Lang, idx []int, sep string) string {
@@ -223,6 +223,26 @@ func Defect() *rapid.Generator[Mutated] {
 				extra[i] = filler
 			}
 			m.Text, m.Desc = strings.Join(append(extra, words...), " "), fmt.Sprintf("%d extra words in front of a valid %d-word sentence (%d words)", base, n, base+n)
+		case "hash-lookalike":
+			// a token that is not a list word but collides with one under a common 32-bit hash
+			// (same byte length): a lookup that compares hashes instead of words accepts it
+			la := HaveLookalikes()
+			if len(la) == 0 {
+				m.Class = "junk-token"
+				words[0] = "notaword#"
+				m.Text, m.Desc = strings.Join(words, " "), "no lookalikes available: plain unknown token"
+				break
+			}
+			x := la[rapid.IntRange(0, len(la)-1).Draw(t, "lookalike")]
+			p := rapid.IntRange(0, n-2).Draw(t, "pos")
+			idx2 := append([]int(nil), idx[:n-1]...)
+			idx2[p] = x.Index
+			sol := ref.SolveLast(idx2)
+			idx2 = append(idx2, sol[rapid.IntRange(0, len(sol)-1).Draw(t, "last")])
+			ws := ref.Words(x.Lang, idx2)
+			ws[p] = x.Token
+			m.Lang = x.Lang
+			m.Text, m.Desc = strings.Join(ws, " "), fmt.Sprintf("word %d replaced by %q, which has the %s hash and length of %s word %d", p, x.Token, x.Hash, x.Lang, x.Index)
 		case "lead-zero-wrongsum":
 			// sentences whose entropy starts with zero bytes and whose checksum is the one of
 			// the entropy with its leading zero bytes dropped (what a big-integer
